@@ -45,6 +45,10 @@ clang CFGs of initTaskingSystem / numTaskingThreads with all callees that have a
            replaces; the compiler could merge calls across a re-initialisation); initTaskingSystem carries neither const nor pure.
            In the cached form (numTaskingThreads returns a count kept in a persistent cell) R-C13-2 requires every path of
            initTaskingSystem to refresh that cell with the paired getter or to reset the key the cache is guarded by.
+  R-C13-14 parallel_for (header-only) selects its backend by the tasking configuration alone: for each configuration, with and
+           without -fopenmp in the client, parallel_for_impl uses tbb::parallel_for / an OpenMP loop / parallel_for_internal /
+           a plain loop exactly as the library does.  R-C13-1 also requires the default for n <= 0 to be *positive*: an
+           expression over hardware counts whose range includes 0 (count - 1) is recognised wrong.
   R-C13-11 the object holding the process-wide handle is one object per program: if initTaskingSystem / numTaskingThreads are
            inline in the public header, the state they reach must not be a namespace-scope variable with internal linkage
            (`static` / anonymous namespace in a header = one copy per translation unit); a function-local static of an
@@ -81,7 +85,8 @@ RX_GC_GET = re.compile(r'^tbb::(detail::\w+::)?global_control::active_value$')
 RX_GC_PAR = re.compile(r'^tbb::(detail::\w+::)?global_control::max_allowed_parallelism$')
 ENKI_INIT = 'enki::TaskScheduler::Initialize'
 ENKI_GET = 'enki::TaskScheduler::GetNumTaskThreads'
-HW_CALLS = ('enki::GetNumHardwareThreads', 'std::thread::hardware_concurrency', 'omp_get_num_procs', 'get_nprocs',
+HW_CALLS = ('enki::GetNumHardwareThreads', 'std::thread::hardware_concurrency', 'omp_get_num_procs', 'get_nprocs', '__sched_cpucount',
+            'get_nprocs_conf',
             'tbb::detail::d1::info::default_concurrency')
 # queries that exist but do not report the configured limit
 WRONG_GETTERS = ('omp_get_num_threads', 'omp_get_thread_num', 'omp_get_thread_limit', 'omp_get_num_procs',
@@ -210,12 +215,39 @@ def path_conditions(p, N):
     """the facts other than the range of n that single out path p, as text (which early return / branch was taken)"""
     out = []
     for k, v in p.state.d.items():
-        if not (isinstance(k, tuple) and k[0] == 'fact') or k[1] == N or (isinstance(k[1], tuple) and k[1][0] == 'param'):
+        if not (isinstance(k, tuple) and k[0] == 'fact') or k[1] == N:
             continue
         lo, hi = v
         what = show_val(Poly.atom(k[1]))
         out.append('%s %s' % (what, 'is null/false' if (lo, hi) == (0, 0) else 'is non-null/true' if lo >= 1 else 'in [%s, %s]' % (lo, hi)))
     return ' on the path where ' + ' and '.join(sorted(out)[:4]) + ': the (re-)initialisation is silently ignored there' if out else ''
+
+
+def hw_positive(v, p):
+    """Is `v` a hardware-derived count that is positive whenever the platform counts are (each >= 1)?
+    True / False (hardware-derived but can be < 1: recognised wrong) / None (not an expression over hardware counts only)."""
+    while isinstance(v, Poly):
+        a = v.as_atom()
+        if isinstance(a, tuple) and a and a[0] == 'conv':
+            v = a[2]
+        else:
+            break
+    if not isinstance(v, Poly) or v.is_const():
+        return None
+
+    def only_hw(x):
+        if isinstance(x, Poly):
+            return all(only_hw(a) for a in x.atoms(deep=False))
+        if isinstance(x, tuple) and x:
+            if x[0] == 'hw':
+                return True
+            if x[0] in ('min', 'max', 'conv'):
+                return all(only_hw(y) for y in x[1:] if isinstance(y, (Poly, tuple)))
+        return False
+    if not only_hw(v):
+        return None
+    lo, _hi = v.range(p.bounds)
+    return lo >= 1
 
 
 def final_value(p, loc):
@@ -481,8 +513,8 @@ def check_init(ctx, cfg, tus, tag, G, GT):
             effects = limits or [k for k in p.stores() if k[0] in ('glob', 'field')]
             if hv is None and not effects:
                 bad = True
-                report(ctx, p, R4, inst, 'this path returns without installing a new handle in `%s` and without any other effect: a '
-                       'repeated initialisation keeps the previous setting' % gname, tu.fn_loc(f),
+                report(ctx, p, R4, inst, 'this path returns without installing a new handle in `%s` and without any other effect on the tasking '
+                       'state: a repeated initialisation keeps the previous setting%s' % (gname, path_conditions(p, N)), tu.fn_loc(f),
                        '%s|%s|initTaskingSystem|%s:handle-not-replaced' % (R4, file, cfg))
             elif hv is None and p.bounds(G)[0] >= 1:
                 ctx.ok(R4, inst, '`%s` is already set on this path and stays set' % gname, tu.fn_loc(f))
@@ -571,6 +603,17 @@ def check_init(ctx, cfg, tus, tag, G, GT):
                 v = limit_value(cfg, e)
                 sv = strip_site(v)
                 if isinstance(sv, tuple) and sv and sv[0] == 'hw':
+                    continue
+                hp = hw_positive(v, p)
+                if hp is True:
+                    continue
+                if hp is False:
+                    bad = True
+                    report(ctx, p, R1, inst, 'for n in %s (default requested) %s receives `%s`, which is derived from the hardware count but is 0 '
+                           '(or negative) when that count is 1: the default is not a *positive* thread count - the backend is started with '
+                           'no task thread at all and numTaskingThreads() reports 0 after a successful initialisation'
+                           % (rng((lo, min(hi, 0))), limit_name(cfg), show_val(v)), e[4],
+                           '%s|%s|initTaskingSystem|%s:default-not-positive' % (R1, e[4].split(':')[0], cfg))
                     continue
                 if hi >= 1 and (v == Nv or sv == N):
                     # one path covers both signs: the guard is missing
@@ -1027,6 +1070,60 @@ def check_one_handle(ctx, tu, tag):
     return n
 
 
+PF_IMPL = 'rkcommon::tasking::detail::parallel_for_impl'
+PARALLEL = 'drivers/c13_parallel.cpp'
+
+
+def check_parallel_for_backend(ctx, tu, cfg, tag):
+    """R-C13-14: parallel_for (header-only, compiled into the client) must run on the mechanism that the library of this
+    configuration limits and reports: tbb::parallel_for under TBB, an OpenMP work-sharing loop under OMP, the enkiTS
+    scheduler (parallel_for_internal) under INTERNAL, a plain loop under DEBUG - whatever other switches (-fopenmp for the
+    client's own loops) the client translation unit is compiled with."""
+    R14 = 'R-C13-14'
+    fs = [f for f in tu.fns(q=PF_IMPL, dep=False) if tu.body(f) is not None]
+    inst = 'parallel_for_impl [%s]' % tag
+    if not fs:
+        ctx.broken('%s: no instantiation of %s in %s [%s]' % (R14, PF_IMPL, tu.unit, tag))
+        return 0
+    used = set()
+    where = {}
+    seen, todo = set(), list(fs)
+    while todo:
+        g = todo.pop()
+        if g['id'] in seen or tu.body(g) is None:
+            continue
+        seen.add(g['id'])
+        for x in tu.walk(tu.body(g)):
+            k = x.get('kind') or ''
+            sd = tu.sd(x) if x.get('id') else {}
+            q = sd.get('q', '')
+            m = None
+            if sd.get('k') == 'omp' or (k.startswith('OMP') and k.endswith('Directive')):
+                m = 'OMP'
+            elif k in ('CallExpr', 'CXXMemberCallExpr', 'CXXConstructExpr') and q.startswith('tbb::'):
+                m = 'TBB'
+            elif k == 'CallExpr' and q.startswith('rkcommon::tasking::detail::') and q.endswith('_internal'):
+                m = 'INTERNAL'
+            if m:
+                used.add(m)
+                where.setdefault(m, tu.loc(x))
+    want = set() if cfg == 'DEBUG' else {cfg}
+    names = {'OMP': 'an OpenMP work-sharing loop (#pragma omp parallel for)', 'TBB': 'tbb::parallel_for', 'INTERNAL': 'the enkiTS scheduler '
+             '(parallel_for_internal)', 'DEBUG': 'a plain serial loop'}
+    if used == want:
+        ctx.ok(R14, inst, 'runs on %s' % (names[cfg]), tu.fn_loc(fs[0]))
+    elif used - want:
+        extra = sorted(used - want)[0]
+        ctx.violation(R14, inst, 'in this client translation unit parallel_for_impl runs its loop on %s (%s), but the library of the %s '
+                      'configuration limits and reports %s: the team size of that mechanism is never set by initTaskingSystem, so '
+                      'parallel_for bodies run on the mechanism\'s own default (all hardware threads) whatever n was configured'
+                      % (names[extra], where[extra], cfg, names[cfg]), where[extra],
+                      key='%s|rkcommon/tasking/detail/parallel_for.inl|parallel_for_impl|%s:backend-mismatch' % (R14, tag.replace(' ', '')))
+    else:
+        ctx.undecided(R14, inst, 'no recognised parallel mechanism found (expected %s)' % names[cfg], tu.fn_loc(fs[0]))
+    return 1
+
+
 def check_declared_effects(ctx, tu, tag, reads_state):
     """R-C13-13: what the public declarations promise the compiler.  numTaskingThreads() reads state that initTaskingSystem()
     replaces, so it must not be declared __attribute__((const)) / [[gnu::const]] ("result depends on the arguments only"): the
@@ -1205,6 +1302,8 @@ def run(ctx):
     ctx.describe('R-C13-7', 'initTaskingSystem never empties the installed handle before the new one is constructed (no window without a limit)')
     ctx.describe('R-C13-10', 'on return from initTaskingSystem the last write to the backend limit is the one carrying n: no destructor '
                              '(of the previous handle) running inside the call writes another value afterwards')
+    ctx.describe('R-C13-14', 'the header-only parallel_for runs on the mechanism the library of the same configuration limits and reports, '
+                             'also in client translation units compiled with -fopenmp')
     ctx.describe('R-C13-13', 'the public declarations make no const/pure promise: numTaskingThreads reads state that initTaskingSystem replaces')
     ctx.describe('R-C13-12', 'the state numTaskingThreads() reports from is set only by initTaskingSystem: no other entry point of the '
                              'tasking-init sources (lazy start-up, ...) leaves it non-null')
@@ -1253,6 +1352,11 @@ def run(ctx):
             for u, t in zip(libs, ctx.front.parse_many([dict(unit=u, config=cfgname, extra=ND) for u in libs])):
                 scan.append((t, '%s %s' % (cfgname, u.split('/')[-1])))
     check_who_may_set(ctx, scan)
+    pjobs = [(c, ex) for c in ('TBB', 'OMP', 'INTERNAL', 'DEBUG') for ex in ((), ('-fopenmp',)) if not (c == 'OMP' and ex)]
+    n14 = 0
+    for (c, ex), ptu in zip(pjobs, ctx.front.parse_many([dict(unit=PARALLEL, config=c, extra=ND + ex) for c, ex in pjobs])):
+        n14 += check_parallel_for_backend(ctx, ptu, c, c + (' -fopenmp' if ex else ''))
+    ctx.floor('R-C13-14', n14, 7, '4 configurations + 3 with an OpenMP-enabled client')
     ccfgs = ('TBB', 'OMP', 'INTERNAL', 'DEBUG') if ctx.tier == 'thorough' else ('TBB',)
     n11 = 0
     for cfg, ctu in zip(ccfgs, ctx.front.parse_many([dict(unit=CLIENT, config=c, extra=ND) for c in ccfgs])):
